@@ -32,9 +32,17 @@ func zzV(c constraint.Constraint) string {
 
 type zzCons struct{ m *Constraints }
 
-func (a zzCons) Set(k, val string) { a.m.Set(zzK(k), zzC{val}) }
+// zzMk: the empty value stands for a nil constraint (an untyped nil interface value is a legal map value).
+func zzMk(val string) constraint.Constraint {
+	if val == "" {
+		return nil
+	}
+	return zzC{val}
+}
+
+func (a zzCons) Set(k, val string) { a.m.Set(zzK(k), zzMk(val)) }
 func (a zzCons) Update(k string, fn func(string) string) {
-	a.m.Update(zzK(k), func(c constraint.Constraint) constraint.Constraint { return zzC{fn(zzV(c))} })
+	a.m.Update(zzK(k), func(c constraint.Constraint) constraint.Constraint { return zzMk(fn(zzV(c))) })
 }
 func (a zzCons) GetValue(k string) string { return zzV(a.m.GetValue(zzK(k))) }
 func (a zzCons) Get(k string) (string, bool) {
